@@ -804,25 +804,51 @@ def rule_defaults(check):
             cp_ = (d_.get("res", {}).get("ctor_path") or "")
             if "TelemetryVerbosity::" in cp_:
                 fallback = cp_.split("::")[-1]
-    for pf_ in prog.flat(pa, 2):
-      if pf_ is not pa and not (pf_.file or "").endswith("telemetry.rs"):
-        continue
-      for m in hir.walk(pf_.body):
-        if m.get("k") == "Match" and any(isinstance(hir.lit_value(hir.peel(a_["pat"].get("e") or a_["pat"].get("expr") or {})), str) or isinstance(hir.pat_variant(a_["pat"]), tuple) for a_ in m["arms"]):
-            scr = hir.peel(m["scrut"])
-            up = any(hir.is_call(x) and (hir.callee_name(x) or x.get("method")) == "to_uppercase" for x in hir.walk(scr))
+    # the name table: every match over string patterns in parse or in the functions of its file that yield a
+    # verbosity (a `from_name` helper, an `impl FromStr`), read by meaning - the value each documented name
+    # ends up with, the wildcard standing for every name that has no arm of its own
+    tfile = hir.loc(pa.rec).split(":")[0]
+    cands_ = [pa] + [g_ for g_ in prog.user_fns if g_ is not pa and hir.loc(g_.rec).split(":")[0] == tfile and "TelemetryVerbosity" in (g_.rec.get("ret") or "") and not g_.rec.get("gen")]
+    n_tables = 0
+    upper = False
+    for pf_ in cands_:
+        for x in hir.walk(pf_.body):
+            nm_ = (hir.callee_name(x) or x.get("method") or "") if hir.is_call(x) else ((x.get("res") or {}).get("path") or "").split("::")[-1] if x.get("k") == "Path" else ""
+            if nm_ in ("to_uppercase", "to_ascii_uppercase", "eq_ignore_ascii_case", "make_ascii_uppercase"):
+                upper = True
+        for m in hir.walk(pf_.body):
+            if m.get("k") != "Match":
+                continue
+            table = {}
             for a in m["arms"]:
-                v = hir.pat_variant(a["pat"])
+                strs = []
+                for q in hir.walk_pat(a["pat"]):
+                    lv = hir.lit_value(hir.peel(q.get("e") or q.get("expr") or {})) if q.get("k") in ("Lit", "Expr") else None
+                    if isinstance(lv, str):
+                        strs.append(lv)
+                    pv_ = hir.pat_variant(q)
+                    if isinstance(pv_, tuple) and len(pv_) == 2 and pv_[0] == "lit" and isinstance(pv_[1], str):
+                        strs.append(pv_[1])
                 b = hir.peel(a["body"])
-                if b.get("k") == "Call" and (hir.peel(b["f"]).get("res", {}).get("ctor_path") or "").split("::")[-1] == "Some" and b.get("args"):
-                    b = hir.peel(b["args"][0])  # Some(V): the value, the absent case falls back below
+                for _ in range(2):
+                    if b.get("k") == "Call" and (hir.peel(b["f"]).get("res", {}).get("ctor_path") or "").split("::")[-1] in ("Some", "Ok") and b.get("args"):
+                        b = hir.peel(b["args"][0])
                 val_ = (b.get("res", {}).get("ctor_path") or "").split("::")[-1]
-                if val_ == "None" and fallback:
-                    val_ = fallback
-                arms[v[1] if isinstance(v, tuple) else v] = val_
-            check.expect(up, R, R + "/verbosity-case", hir.loc(m), "case-insensitive (to_uppercase)", "verbosity strings are not upper-cased before matching")
+                if val_ in ("None", "Err") or (b.get("k") == "Call" and (hir.peel(b["f"]).get("res", {}).get("ctor_path") or "").split("::")[-1] == "Err"):
+                    val_ = fallback or "?"
+                if strs:
+                    for s_ in set(strs):
+                        table[s_] = val_
+                elif "guard" not in a and not strs:
+                    table.setdefault("_", val_)
+            if any(k_ != "_" for k_ in table):
+                n_tables += 1
+                arms.update({k_: v_ for k_, v_ in table.items() if k_ not in arms})
+    check.expect(upper, R, R + "/verbosity-case", hir.loc(pa.rec), "case-insensitive (upper-cased before matching)", "verbosity strings are not upper-cased before matching: `off` / `Debug` are read as unknown names")
     wantv = {"OFF": "Off", "MANDATORY": "Mandatory", "INFORMATION": "Information", "DEBUG": "Debug", "_": "Information"}
-    check.expect(arms == wantv, R, R + "/verbosity-map", hir.loc(pa.rec), "verbosity map %s" % arms, "verbosity strings map to %s (documented %s)" % (arms, wantv))
+    got_ = {k_: arms.get(k_, arms.get("_")) for k_ in wantv}
+    extra_ = {k_: v_ for k_, v_ in arms.items() if k_ not in wantv}
+    check.expect(n_tables >= 1 and got_ == wantv and not extra_, R, R + "/verbosity-map", hir.loc(pa.rec), "verbosity map %s" % got_, "verbosity strings map to %s%s (documented %s)" % (got_, (" plus %s" % extra_) if extra_ else "", wantv))
     tails = [hir.peel(x) for x in return_exprs(pa.body)]
     none_default = [t for t in tails if (t.get("res", {}).get("ctor_path") or "").endswith("TelemetryVerbosity::Information") and not any(c["t"] == "pat" and c["v"] and "Some" in str(hir.pat_variant(c["pat"])) for c in pa.conds_at(t))]
     # or through Option::map_or / map_or_else on the optional value
@@ -938,6 +964,11 @@ def run(check):
     check.guarded("JS-CONFIG", rule_js_config)
     check.guarded("METHOD-GATE", rule_method_gates)
     check.guarded("METHOD-GATE", rule_call_apply_name)
+    # the configured name is compared with an *identifier* property only: `obj.#trim()` and `obj["trim"]()`
+    # are other operations than the configured `trim`
+    from . import c04 as _c04
+    from ..engine import Only as _Only
+    check.guarded("METHOD-GATE", lambda c: _c04.rule_receiver_table(_Only(c, "RECEIVER-TABLE", "METHOD-GATE", ("/ident-property/",))))
     check.guarded("HOOK-NAMES", rule_names)
     check.guarded("PROLOGUE", rule_prologue)
     check.guarded("DEFAULTS", rule_defaults)
